@@ -106,7 +106,8 @@ theorem the_cycle_before_the_repair :
     bus/), on a local variable typed by a declaration, by a constructor and by a range clause; a function literal
     handed to a call; a goroutine (no call here); a call through a function value; `wg.Add(1)` on a `sync.WaitGroup`
     (not the `Add` of a type of the package); the embedded mutex of a field's type (read lock) and the same mutex
-    through the type's own method (write lock): one mutex. -/
+    through the type's own method (write lock): one mutex; a function that sends on a channel — an attempt in a `select`
+    with a default, which is nothing, then a send that waits: the mutex 900 — called with a mutex held: the edge (0, 900). -/
 theorem translator_self_test :
     Gen.LockOrder.selfTestMutexes = ["p.A.mu", "p.B.self"] ∧
     Gen.LockOrder.selfTest =
@@ -115,9 +116,11 @@ theorem translator_self_test :
        ("p/selftest.go A.g", (.seq (.lock 1) (.unlock 1))),
        ("p/selftest.go B.h", (.seq (.lock 1) (.unlock 1))),
        ("p/selftest.go C.Do", (.act 1003)),
-       ("p/selftest.go D.Do", (.act 1002))] ∧
-    Gen.LockOrder.selfTestAcq = [[0, 1], [1], [1], [1], [1], [1]] ∧
+       ("p/selftest.go D.Do", (.act 1002)),
+       ("p/selftest.go D.k", (.seq (.lock 0) (.seq (.act 1007) (.unlock 0)))),
+       ("p/selftest.go D.send", (.seq (.catch (.ite .skip .skip)) (.seq (.lock 900) (.unlock 900))))] ∧
+    Gen.LockOrder.selfTestAcq = [[0, 1], [1], [1], [1], [1], [1], [0, 900], [900]] ∧
     closed Gen.LockOrder.selfTest Gen.LockOrder.selfTestAcq = true ∧
-    (edges Gen.LockOrder.selfTest Gen.LockOrder.selfTestAcq).eraseDups = [(0, 1)] := by decide
+    (edges Gen.LockOrder.selfTest Gen.LockOrder.selfTestAcq).eraseDups = [(0, 1), (0, 900)] := by decide
 
 end QiVerif.Tie.LockOrder
